@@ -77,12 +77,17 @@ def one(name: str, props: list, apply) -> dict:
     try:
         if not apply(d):
             return {"name": name, "rc": 3, "prop": props[0], "chk": "", "sig": "PATCH-DOES-NOT-APPLY", "wall": 0, "corpus": ""}
-        seed = os.environ.get("VERIF_SEED", "1")
+        # the checks are randomised: a narrow change can be missed by one seed's sample and found by
+        # the next.  VERIF_SEEDS (default "1") lists the seeds tried in turn; the seed that
+        # detected is recorded.
         tried = []
-        for prop in props:
-            r = check(d, prop, seed)
-            tried.append(r)
-            if r["rc"] == 1:
+        for seed in os.environ.get("VERIF_SEEDS", os.environ.get("VERIF_SEED", "1")).split(","):
+            for prop in props:
+                r = check(d, prop, seed)
+                tried.append(r)
+                if r["rc"] == 1:
+                    break
+            if tried[-1]["rc"] == 1:
                 break
         r = tried[-1]
         corpus = harvest(d, r["prop"], name, r["hits"]) if r["rc"] == 1 else ""
